@@ -345,7 +345,15 @@ class Source:
                         while code[j].start < close:
                             j += 1
                     elif t.kind == "punct" and t.text == "{":
-                        return Span(self, code[i].start, self.match_close(t.start) + 1, span.name + "::expr(" + pattern + ")")
+                        close = self.match_close(t.start)
+                        # include `else { .. }` / `else if .. { .. }` chains
+                        k = j
+                        while code[k].start < close:
+                            k += 1
+                        if k + 1 < len(code) and code[k + 1].kind == "ident" and code[k + 1].text == "else":
+                            j = k + 2
+                            continue
+                        return Span(self, code[i].start, close + 1, span.name + "::expr(" + pattern + ")")
                     elif t.kind == "punct" and t.text == ";":
                         break
                     j += 1
